@@ -67,8 +67,18 @@ pub fn stages(prop: &str, tier: &str) -> Vec<Stage> {
     let tiny = vec![COp::Match(4), COp::Cancel(1), COp::Amend(1, 2), COp::Add];
     let common = |v: &mut Vec<Stage>| {
         // operations that make sense on the 70-order book
-        let big = vec![COp::Match(1000), COp::Match(20), COp::Cancel(100), COp::Cancel(169), COp::Add, COp::Read];
-        let books6 = [Book::B1, Book::B2, Book::B3, Book::B4, Book::B5, Book::B6, Book::B7, Book::B8];
+        let big = vec![COp::Match(1000), COp::Match(20), COp::Cancel(100), COp::Cancel(136), COp::Cancel(169), COp::Add, COp::Read];
+        let books6 = [
+            Book::B1,
+            Book::B2,
+            Book::B3,
+            Book::B4,
+            Book::B5,
+            Book::B6,
+            Book::B7,
+            Book::B8,
+            Book::B11,
+        ];
         let mut wide = alpha.clone();
         wide.extend([
             COp::AddIce,
@@ -81,19 +91,19 @@ pub fn stages(prop: &str, tier: &str) -> Vec<Stage> {
             COp::AmendVia(2, 1, 8),
         ]);
         if quick {
-            v.push(stage("pairs of 1-op threads, wide alphabet, eight books", programs_1op(2, &books6, &wide), Some(3)));
+            v.push(stage("pairs of 1-op threads, wide alphabet, nine books", programs_1op(2, &books6, &wide), Some(3)));
             v.push(stage("triples of 1-op threads, books B1-B5", programs_1op(3, &books5, &alpha), Some(2)));
             v.push(stage("pairs of 2-op threads, reduced alphabet, B1-B4", programs_2x2(&BOOKS4, &small), Some(2)));
-            v.push(stage("pairs of 1-op threads on a 70-order book", programs_1op(2, &[Book::B9], &big), Some(1)));
+            v.push(stage("pairs of 1-op threads on a 70-order book", programs_1op(2, &[Book::B9, Book::B10], &big), Some(1)));
         } else {
-            v.push(stage("pairs and triples of 1-op threads on a 70-order book", { let mut p = programs_1op(2, &[Book::B9], &big); p.extend(programs_1op(3, &[Book::B9], &big)); p }, Some(2)));
+            v.push(stage("pairs and triples of 1-op threads on a 70-order book", { let mut p = programs_1op(2, &[Book::B9, Book::B10], &big); p.extend(programs_1op(3, &[Book::B9], &big)); p }, Some(2)));
             // a wider alphabet for the unbounded two-thread programs: iceberg adds, amend to zero display
             // (an order that can give nothing), a second price move
             // no bound at all where that is feasible (short programs), bound 5 for the long sweeps
             let (short, long) = split_by_length(programs_1op(2, &books6, &wide), 34);
-            v.push(stage("pairs of 1-op threads, wide alphabet, eight books, programs of <= 34 steps, unbounded", short, None));
-            v.push(stage("pairs of 1-op threads, wide alphabet, eight books, longer programs, bound 5", long, Some(5)));
-            v.push(stage("triples of 1-op threads, eight books", programs_1op(3, &books6, &alpha), Some(3)));
+            v.push(stage("pairs of 1-op threads, wide alphabet, nine books, programs of <= 34 steps, unbounded", short, None));
+            v.push(stage("pairs of 1-op threads, wide alphabet, nine books, longer programs, bound 5", long, Some(5)));
+            v.push(stage("triples of 1-op threads, nine books", programs_1op(3, &books6, &alpha), Some(3)));
             v.push(stage("triples of 1-op threads, reduced alphabet, B1-B4, bound 4", programs_1op(3, &BOOKS4, &small), Some(4)));
             v.push(stage("pairs of 2-op threads, full alphabet, B1-B4", programs_2x2(&BOOKS4, &alpha), Some(3)));
             v.push(stage("quadruples of 1-op threads, reduced alphabet, B1-B4", programs_1op(4, &BOOKS4, &small), Some(2)));
@@ -799,6 +809,8 @@ impl ProgramDe {
             "B7" => Book::B7,
             "B8" => Book::B8,
             "B9" => Book::B9,
+            "B10" => Book::B10,
+            "B11" => Book::B11,
             _ => Book::B5,
         };
         let op = |v: &Value| -> COp {
